@@ -121,4 +121,260 @@ theorem updU_tree (val : ValFn) : ∀ (h : Nat) (p : List Bool) (t : T Trie.Byte
       simp only [updU, update]
       exact splitU_tree val (h + 1) p _ _ (update h) (hu p) ..
 
+/-! ### `updUH` (hashes cached in the tree) agrees with `updU` -/
+
+/-- every cached hash is the hash of the subtree below it -/
+def WfH (c : HashCtx) : Nat → List Bool → TH → Prop
+  | _, _, .empty => True
+  | h, p, .leaf k v hs => hs = hashT c h p (.leaf k v)
+  | h, p, .node l r hs =>
+    hs = hashT c h p (.node l.erase r.erase) ∧ WfH c (h - 1) (p ++ [false]) l ∧ WfH c (h - 1) (p ++ [true]) r
+
+theorem WfH.ref {h : Nat} {p : List Bool} {t : TH} (w : WfH c h p t) : t.ref = hashT c h p t.erase := by
+  cases t with
+  | empty => rfl
+  | leaf k v hs => exact w
+  | node l r hs => exact w.1
+
+theorem WfH.root {h : Nat} {p : List Bool} {t : TH} (w : WfH c h p t) : t.root = oldRoot c h p t.erase := by
+  cases t with
+  | empty => rfl
+  | leaf k v hs => exact w
+  | node l r hs => exact w.1
+
+/-- result of `updUH` against result of `updU` -/
+def Sim (c : HashCtx) (h : Nat) (p : List Bool) (rH : ResUH) (r : ResU) : Prop :=
+  rH.1.1.erase = r.1.1 ∧ rH.1.2 = r.1.2 ∧ rH.2 = r.2 ∧ WfH c h p rH.1.1
+
+theorem mkLeaf_wf (h : Nat) (rp k : List Bool) (v : Trie.Bytes) :
+    (mkLeaf c h rp k v).erase = .leaf k v ∧ WfH c h rp.reverse (mkLeaf c h rp k v) := by
+  simp [mkLeaf, TH.erase, WfH, hashT, List.reverseAux_eq]
+
+theorem mkNode_wf {h : Nat} {p : List Bool} {l r : TH} (wl : WfH c (h - 1) (p ++ [false]) l) (wr : WfH c (h - 1) (p ++ [true]) r) :
+    (mkNode c l r).erase = .node l.erase r.erase ∧ WfH c h p (mkNode c l r) := by
+  refine ⟨rfl, ?_, wl, wr⟩
+  simp [hashT, wl.ref, wr.ref]
+
+/-- the two recorded-value functions agree -/
+def ValAgree (valH : ValFnH) (val : ValFn) : Prop := ∀ h rp t, valH h rp t = val h rp.reverse t.erase
+
+theorem storeNodeUH_eq {valH : ValFnH} {val : ValFn} (va : ValAgree valH val) (un : UN) (h : Nat) (rp : List Bool) (new : TH)
+    (old : Trie.Bytes) (w : WfH c h rp.reverse new) (hne : new.erase ≠ .empty) :
+    storeNodeUH valH un h rp new old = storeNodeU c val un h rp.reverse new.erase old := by
+  have hr : new.root = hashT c h rp.reverse new.erase := by
+    rw [w.root]
+    cases hnew : new.erase with
+    | empty => exact absurd hnew hne
+    | leaf _ _ => rfl
+    | node _ _ => rfl
+  simp only [storeNodeUH, storeNodeU, hr, va h rp new]
+
+theorem interiorUH_sim {valH : ValFnH} {val : ValFn} (va : ValAgree valH val) (h : Nat) (rp : List Bool) (old : Trie.Bytes)
+    (l r : TH) (un : UN) (wl : WfH c (h - 1) (rp.reverse ++ [false]) l) (wr : WfH c (h - 1) (rp.reverse ++ [true]) r) :
+    Sim c h rp.reverse (interiorUH c valH h rp old l r un) (interiorU c val h rp.reverse old l.erase r.erase un) := by
+  obtain ⟨e, w⟩ := mkNode_wf (c := c) (h := h) wl wr
+  refine ⟨e, rfl, ?_, w⟩
+  simp only [interiorUH, interiorU]
+  split
+  · rw [storeNodeUH_eq va un h rp _ old w (by rw [e]; simp), e]
+  · rfl
+
+theorem shortcutUpUH_sim {valH : ValFnH} {val : ValFn} (va : ValAgree valH val) (h : Nat) (rp : List Bool) (old : Trie.Bytes)
+    (b : Bool) (k : List Bool) (v hs : Trie.Bytes) (un : UN)
+    (hhs : hs = hashT c (h - 1) (rp.reverse ++ [b]) (.leaf k v)) :
+    Sim c h rp.reverse (shortcutUpUH c valH h rp old b k v hs un) (shortcutUpU c val h rp.reverse old b k v un) := by
+  obtain ⟨e, w⟩ := mkLeaf_wf (c := c) h rp (b :: k) v
+  refine ⟨e, rfl, ?_, w⟩
+  simp only [shortcutUpUH, shortcutUpU]
+  split
+  · rw [storeNodeUH_eq va un h rp _ old w (by rw [e]; simp), e]
+  · rw [hhs]
+
+theorem moveUpUH_sim {valH : ValFnH} {val : ValFn} (va : ValAgree valH val) (h : Nat) (rp : List Bool) (old : Trie.Bytes)
+    (l r : TH) (un : UN) (wl : WfH c (h - 1) (rp.reverse ++ [false]) l) (wr : WfH c (h - 1) (rp.reverse ++ [true]) r) :
+    Sim c h rp.reverse (moveUpUH c valH h rp old l r un) (moveUpU c val h rp.reverse old l.erase r.erase un) := by
+  cases l with
+  | empty =>
+    cases r with
+    | empty => exact ⟨rfl, rfl, rfl, trivial⟩
+    | leaf k v hs => exact shortcutUpUH_sim va h rp old true k v hs un wr
+    | node a b hs => exact interiorUH_sim va h rp old .empty (.node a b hs) un wl wr
+  | leaf k v hs =>
+    cases r with
+    | empty => exact shortcutUpUH_sim va h rp old false k v hs un wl
+    | leaf k' v' hs' => exact interiorUH_sim va h rp old (.leaf k v hs) (.leaf k' v' hs') un wl wr
+    | node a b hs' => exact interiorUH_sim va h rp old (.leaf k v hs) (.node a b hs') un wl wr
+  | node a b hs =>
+    cases r with
+    | empty => exact interiorUH_sim va h rp old (.node a b hs) .empty un wl wr
+    | leaf k' v' hs' => exact interiorUH_sim va h rp old (.node a b hs) (.leaf k' v' hs') un wl wr
+    | node a' b' hs' => exact interiorUH_sim va h rp old (.node a b hs) (.node a' b' hs') un wl wr
+
+/-- what the recursive calls deliver -/
+def UpdSim (c : HashCtx) (h : Nat) (rp : List Bool)
+    (updH : Bool → TH → List (KV Trie.Bytes) → UN → ResUH) (upd : Bool → T Trie.Bytes → List (KV Trie.Bytes) → UN → ResU) : Prop :=
+  ∀ b t kvs un, WfH c (h - 1) (rp.reverse ++ [b]) t → Sim c (h - 1) (rp.reverse ++ [b]) (updH b t kvs un) (upd b t.erase kvs un)
+
+theorem splitCoreUH_sim {valH : ValFnH} {val : ValFn} (va : ValAgree valH val) (h : Nat) (rp : List Bool) (old : Trie.Bytes)
+    {updH : Bool → TH → List (KV Trie.Bytes) → UN → ResUH} {upd : Bool → T Trie.Bytes → List (KV Trie.Bytes) → UN → ResU}
+    (hu : UpdSim c h rp updH upd)
+    (l r : TH) (lk rk : List (KV Trie.Bytes)) (un : UN)
+    (wl : WfH c (h - 1) (rp.reverse ++ [false]) l) (wr : WfH c (h - 1) (rp.reverse ++ [true]) r) :
+    Sim c h rp.reverse (splitCoreUH c valH h rp old updH l r lk rk un)
+      (splitCoreU c val h rp.reverse old upd l.erase r.erase lk rk un) := by
+  have one : ∀ (dl : Bool) (l' r' : TH) (un' : UN) (d1 d2 : Bool), d1 = d2 →
+      WfH c (h - 1) (rp.reverse ++ [false]) l' → WfH c (h - 1) (rp.reverse ++ [true]) r' →
+      Sim c h rp.reverse (if d1 then moveUpUH c valH h rp old l' r' un' else interiorUH c valH h rp old l' r' un')
+        (if d2 then moveUpU c val h rp.reverse old l'.erase r'.erase un' else interiorU c val h rp.reverse old l'.erase r'.erase un') := by
+    intro _ l' r' un' d1 d2 e w1 w2
+    subst e
+    cases d1
+    · exact interiorUH_sim va h rp old l' r' un' w1 w2
+    · exact moveUpUH_sim va h rp old l' r' un' w1 w2
+  match lk, rk with
+  | [], y :: ys =>
+    simp only [splitCoreUH, splitCoreU]
+    obtain ⟨e1, e2, e3, w⟩ := hu true r (tails (y :: ys)) un wr
+    rcases hx : updH true r (tails (y :: ys)) un with ⟨⟨r', d⟩, un1⟩
+    rcases hy : upd true r.erase (tails (y :: ys)) un with ⟨⟨r'', d'⟩, un1'⟩
+    rw [hx, hy] at e1 e2 e3
+    rw [hx] at w
+    simp only at e1 e2 e3 w ⊢
+    subst e1 e2 e3
+    exact one false l r' un1 d d rfl wl w
+  | x :: xs, [] =>
+    simp only [splitCoreUH, splitCoreU]
+    obtain ⟨e1, e2, e3, w⟩ := hu false l (tails (x :: xs)) un wl
+    rcases hx : updH false l (tails (x :: xs)) un with ⟨⟨l', d⟩, un1⟩
+    rcases hy : upd false l.erase (tails (x :: xs)) un with ⟨⟨l'', d'⟩, un1'⟩
+    rw [hx, hy] at e1 e2 e3
+    rw [hx] at w
+    simp only at e1 e2 e3 w ⊢
+    subst e1 e2 e3
+    exact one false l' r un1 d d rfl w wr
+  | [], [] =>
+    simp only [splitCoreUH, splitCoreU]
+    obtain ⟨e1, e2, e3, w⟩ := hu false l (tails []) un wl
+    rcases hx : updH false l (tails []) un with ⟨⟨l', dl⟩, un1⟩
+    rcases hy : upd false l.erase (tails []) un with ⟨⟨l'', dl'⟩, un1'⟩
+    rw [hx, hy] at e1 e2 e3
+    rw [hx] at w
+    simp only at e1 e2 e3 w ⊢
+    subst e1 e2 e3
+    obtain ⟨f1, f2, f3, w'⟩ := hu true r (tails []) un1 wr
+    rcases hx' : updH true r (tails []) un1 with ⟨⟨r', dr⟩, un2⟩
+    rcases hy' : upd true r.erase (tails []) un1 with ⟨⟨r'', dr'⟩, un2'⟩
+    rw [hx', hy'] at f1 f2 f3
+    rw [hx'] at w'
+    simp only at f1 f2 f3 w' ⊢
+    subst f1 f2 f3
+    exact one false l' r' un2 (dl || dr) (dl || dr) rfl w w'
+  | x :: xs, y :: ys =>
+    simp only [splitCoreUH, splitCoreU]
+    obtain ⟨e1, e2, e3, w⟩ := hu false l (tails (x :: xs)) un wl
+    rcases hx : updH false l (tails (x :: xs)) un with ⟨⟨l', dl⟩, un1⟩
+    rcases hy : upd false l.erase (tails (x :: xs)) un with ⟨⟨l'', dl'⟩, un1'⟩
+    rw [hx, hy] at e1 e2 e3
+    rw [hx] at w
+    simp only at e1 e2 e3 w ⊢
+    subst e1 e2 e3
+    obtain ⟨f1, f2, f3, w'⟩ := hu true r (tails (y :: ys)) un1 wr
+    rcases hx' : updH true r (tails (y :: ys)) un1 with ⟨⟨r', dr⟩, un2⟩
+    rcases hy' : upd true r.erase (tails (y :: ys)) un1 with ⟨⟨r'', dr'⟩, un2'⟩
+    rw [hx', hy'] at f1 f2 f3
+    rw [hx'] at w'
+    simp only at f1 f2 f3 w' ⊢
+    subst f1 f2 f3
+    exact one false l' r' un2 (dl || dr) (dl || dr) rfl w w'
+
+theorem splitUH_sim {valH : ValFnH} {val : ValFn} (va : ValAgree valH val) (h : Nat) (rp : List Bool) (old : Trie.Bytes)
+    {updH : Bool → TH → List (KV Trie.Bytes) → UN → ResUH} {upd : Bool → T Trie.Bytes → List (KV Trie.Bytes) → UN → ResU}
+    (hu : UpdSim c h rp updH upd)
+    (l r : TH) (kvs : List (KV Trie.Bytes)) (un : UN)
+    (wl : WfH c (h - 1) (rp.reverse ++ [false]) l) (wr : WfH c (h - 1) (rp.reverse ++ [true]) r) :
+    Sim c h rp.reverse (splitUH c valH h rp old updH l r kvs un) (splitU c val h rp.reverse old upd l.erase r.erase kvs un) := by
+  have gen := splitCoreUH_sim va h rp old hu l r (kvs.takeWhile fun kv => !headBit kv.1) (kvs.dropWhile fun kv => !headBit kv.1) un wl wr
+  -- the two special cases need both subtrees empty
+  by_cases hE : l = .empty ∧ r = .empty
+  · obtain ⟨rfl, rfl⟩ := hE
+    match kvs with
+    | [(k, some v)] =>
+      obtain ⟨e, w⟩ := mkLeaf_wf (c := c) h rp k v
+      refine ⟨e, rfl, ?_, w⟩
+      simp only [splitUH, splitU, TH.erase]
+      split
+      · rw [storeNodeUH_eq va un h rp _ old w (by rw [e]; simp), e]
+      · rfl
+    | [(k, none)] => exact ⟨rfl, rfl, rfl, trivial⟩
+    | [] => simpa [splitUH, splitU, TH.erase] using gen
+    | (k, none) :: y :: ys => simpa [splitUH, splitU, TH.erase] using gen
+    | (k, some v) :: y :: ys => simpa [splitUH, splitU, TH.erase] using gen
+  · have e1 : splitUH c valH h rp old updH l r kvs un =
+        splitCoreUH c valH h rp old updH l r (kvs.takeWhile fun kv => !headBit kv.1) (kvs.dropWhile fun kv => !headBit kv.1) un := by
+      unfold splitUH
+      split
+      · exact absurd ⟨rfl, rfl⟩ hE
+      · exact absurd ⟨rfl, rfl⟩ hE
+      · rfl
+    have hE' : ¬(l.erase = .empty ∧ r.erase = .empty) := by
+      intro ⟨a, b⟩
+      apply hE
+      constructor
+      · cases l <;> simp_all [TH.erase]
+      · cases r <;> simp_all [TH.erase]
+    have e2 : splitU c val h rp.reverse old upd l.erase r.erase kvs un =
+        splitCoreU c val h rp.reverse old upd l.erase r.erase (kvs.takeWhile fun kv => !headBit kv.1) (kvs.dropWhile fun kv => !headBit kv.1) un := by
+      unfold splitU
+      split
+      · rename_i a b; exact absurd ⟨a, b⟩ hE'
+      · rename_i a b; exact absurd ⟨a, b⟩ hE'
+      · rfl
+    rw [e1, e2]
+    exact gen
+
+/-- **`updUH` is `updU`** on a correctly annotated tree: same tree, same flag, same `updatedNodes`, and the result is
+correctly annotated again. (`rp` is the reversed path prefix.) -/
+theorem updUH_sim {valH : ValFnH} {val : ValFn} (va : ValAgree valH val) :
+    ∀ (h : Nat) (rp : List Bool) (t : TH) (kvs : List (KV Trie.Bytes)) (un : UN), WfH c h rp.reverse t →
+      Sim c h rp.reverse (updUH c valH h rp t kvs un) (updU c val h rp.reverse t.erase kvs un) := by
+  intro h
+  induction h with
+  | zero =>
+    intro rp t kvs un w
+    match kvs with
+    | (k, some v) :: _ =>
+      obtain ⟨e, w'⟩ := mkLeaf_wf (c := c) 0 rp k v
+      refine ⟨e, rfl, ?_, w'⟩
+      simp only [updUH, updU]
+      rw [storeNodeUH_eq va un 0 rp _ _ w' (by rw [e]; simp), e, w.root]
+    | (k, none) :: _ =>
+      refine ⟨rfl, rfl, ?_, trivial⟩
+      simp only [updUH, updU, w.root]
+    | [] => exact ⟨rfl, rfl, rfl, trivial⟩
+  | succ h ih =>
+    intro rp t kvs un w
+    have hu : UpdSim c (h + 1) rp (fun b => updUH c valH h (b :: rp)) (fun b => updU c val h (rp.reverse ++ [b])) := by
+      intro b t' kvs' un' w'
+      have := ih (b :: rp) t' kvs' un' (by simpa using w')
+      simpa using this
+    have wE : WfH c (h + 1 - 1) (rp.reverse ++ [false]) .empty ∧ WfH c (h + 1 - 1) (rp.reverse ++ [true]) .empty := ⟨trivial, trivial⟩
+    cases t with
+    | empty =>
+      simp only [updUH, updU, TH.erase, TH.root, oldRoot]
+      have := splitUH_sim va (h + 1) rp (if (h + 1) % 4 = 0 then [] else []) hu .empty .empty kvs un wE.1 wE.2
+      simpa [TH.erase] using this
+    | leaf sk sv hs =>
+      have hr : (TH.leaf sk sv hs).root = oldRoot c (h + 1) rp.reverse (.leaf sk sv) := w.root
+      simp only [updUH, updU, TH.erase, hr]
+      split
+      · exact ⟨rfl, rfl, rfl, trivial⟩
+      · have := splitUH_sim va (h + 1) rp (if (h + 1) % 4 = 0 then oldRoot c (h + 1) rp.reverse (.leaf sk sv) else []) hu
+          .empty .empty (addShortcut kvs sk sv)
+          (if (h + 1) % 4 = 0 then delU un (if (h + 1) % 4 = 0 then oldRoot c (h + 1) rp.reverse (.leaf sk sv) else []) else un) wE.1 wE.2
+        simpa [TH.erase] using this
+    | node l r hs =>
+      have hr : (TH.node l r hs).root = oldRoot c (h + 1) rp.reverse (.node l.erase r.erase) := w.root
+      simp only [updUH, updU, TH.erase, hr]
+      exact splitUH_sim va (h + 1) rp _ hu l r kvs un w.2.1 w.2.2
+
 end Aergo.TrieStore
